@@ -7,8 +7,6 @@ let cfg = function
   | L [A "cfg"; n; L ds; ex] -> { Model.c_name = atom_str n; c_derives = List.map atom_str ds; c_examples = Specio.b ex }
   | _ -> failwith "cfg"
 
-exception Stop of string
-
 let read_file p = let ic = open_in_bin p in let n = in_channel_length ic in let s = really_input_string ic n in close_in ic; explode s
 let tpl = ref None
 (* the adapter templates are read from the repository as it is now *)
@@ -29,31 +27,9 @@ let run () =
     (* two s-expressions on the line *)
     let both = Sexp.parse ("(" ^ rest ^ ")") in
     let (c, sp) = match both with L [c; s] -> (cfg c, Specio.spec s) | _ -> failwith "emit line" in
-    (* the service name is Pascal-cased by the CLI (command/generate.rs) *)
-    let c = { c with Model.c_name = Model.pascal c.Model.c_name } in
-    match Model.extract_spec fuel sp with
+    (* the whole tree comes from the Coq function Crate.generate (extraction, pruning, every file) *)
+    match Model.generate fuel sp c (templates ()) with
     | Model.Err e -> Printf.printf "%s R err:%s\n" id (err_name e)
-    | Model.Ok h ->
-      let files = ref [] in
-      let add path r = match r with
-        | Model.Ok code -> files := (path, Model.render code) :: !files
-        | Model.Err e -> raise (Stop (err_name e)) in
-      (try
-        add (explode "src/model/mod.rs") (Model.model_mod_file h);
-        List.iter (fun (k, r) ->
-          match Model.sanitize k with
-          | Model.Ok fname -> add (explode "src/model/" @ fname @ explode ".rs") (Model.model_file fuel h c r)
-          | Model.Err e -> raise (Stop (err_name e))) h.Model.h_schemas;
-        List.iter (fun o ->
-          add (explode "src/request/" @ Model.op_file_name o.Model.o_name @ explode ".rs") (Model.request_file h c o)) h.Model.h_ops;
-        add (explode "src/request/mod.rs") (Model.request_mod_file h);
-        add (explode "src/lib.rs") (Model.lib_file h c true);
-        (match Model.serde_file h (templates ()) with
-         | Some code -> add (explode "src/serde.rs") (Model.Ok code)
-         | None -> ());
-        if c.Model.c_examples then
-          List.iter (fun o ->
-            add (explode "examples/" @ Model.op_file_name o.Model.o_name @ explode ".rs") (Model.example_file fuel h c o)) h.Model.h_ops;
-        Printf.printf "%s R ok\n" id;
-        List.iter (fun (p, txt) -> Printf.printf "%s F %s %s\n" id (hex_of_str p) (hex_of_str txt)) (List.rev !files)
-      with Stop k -> Printf.printf "%s R err:%s\n" id k))
+    | Model.Ok files ->
+      Printf.printf "%s R ok\n" id;
+      List.iter (fun (p, code) -> Printf.printf "%s F %s %s\n" id (hex_of_str p) (hex_of_str (Model.render code))) files)
